@@ -196,6 +196,25 @@ def check_join(ctx, fx, cfg, RULE):
                                 rv.add(r2.kind)
                         else:
                             rv.add(r.kind)
+        if "await" not in rv:
+            # the flattening may sit in a small private helper / trait method (`handle.await.into_actor()`): with it inlined,
+            # follow the returned value through the Option / Result adapters to what it is made from
+            import inline
+            ivb = inline.body(ctx, fx, co, inline.not_public)
+            work, seen_ = [({"k": "move", "p": [0]}, 0)], set()
+            while work:
+                op_, d_ = work.pop()
+                for o_ in ivb.origins(op_, through_calls=False):
+                    k_ = (o_.kind, o_.site, o_.proj)
+                    if k_ in seen_ or d_ > 10:
+                        continue
+                    seen_.add(k_)
+                    if o_.kind == "call" and (ivb.call_at(o_).get("callee") or "").startswith(("core::result::", "core::option::")) and ivb.call_at(o_)["args"]:
+                        work.append((ivb.call_at(o_)["args"][0], d_ + 1))
+                    elif o_.kind == "agg" and ivb.blocks[o_.site[0]]["s"][o_.site[1]]["r"].get("variant") in ("Ready", "Some", "Ok") and ivb.blocks[o_.site[0]]["s"][o_.site[1]]["r"].get("ops"):
+                        work.append((ivb.blocks[o_.site[0]]["s"][o_.site[1]]["r"]["ops"][0], d_ + 1))
+                    else:
+                        rv.add(o_.kind)
         ctx.require("await" in rv, RULE, inst + ":returns-joined-value", "the value a join yields must be what the awaited task returned: derives from %s" % sorted(rv), fn=co["def"], site=co["loc"], detail=sorted(rv))
 
 
